@@ -20,7 +20,7 @@ Fresh == [alive |-> FALSE, g |-> "nil", cfg |-> FALSE, limited |-> FALSE]
 InitState == [i \in Insts |-> Fresh]
 
 \* input kinds of sqfvm_call with type 's'
-SqfKinds == {"setg1", "setg2", "readg", "readcfg", "ppfail", "parsefail", "rterr", "rterr_spawned", "endless", "empty"}
+SqfKinds == {"setg1", "setg2", "readg", "readcfg", "ppfail", "parsefail", "rterr", "rterr_spawned", "endless", "sleeper", "empty"}
 CfgKinds == {"cfgok", "cfgparsefail", "cfgppfail"}
 
 ToS(n) == ToString(n)
@@ -51,12 +51,14 @@ Apply(st, o) ==
               \* a spawned script that would later set g to 9 is discarded with the failed call
               [] o.kind = "rterr_spawned" -> [st |-> st, obs |-> [ret |-> -6, status |-> 0, out |-> ""]]
               [] o.kind = "endless" -> [st |-> st, obs |-> [ret |-> (IF DeadlineIsFailure THEN -6 ELSE 0), status |-> 0, out |-> ""]]
+              \* the time limit expires while the only script left (spawned) is asleep: the run is aborted, the script discarded
+              [] o.kind = "sleeper" -> [st |-> st, obs |-> [ret |-> (IF DeadlineIsFailure THEN -6 ELSE 0), status |-> 0, out |-> ""]]
               [] o.kind = "empty" -> [st |-> st, obs |-> [ret |-> 0, status |-> 0, out |-> ""]])
 
 Enabled(st, o) ==
     CASE o.op = "create" -> ~st[o.i].alive
       [] o.op = "null" -> TRUE
-      [] o.op = "call" /\ o.kind = "endless" -> st[o.i].alive /\ st[o.i].limited
+      [] o.op = "call" /\ o.kind \in {"endless", "sleeper"} -> st[o.i].alive /\ st[o.i].limited
       [] OTHER -> st[o.i].alive
 
 \* ---- property formulas over one step
